@@ -3,5 +3,5 @@ CONSTANTS
   Tier = "quick"
   ImplFixes = {}
 VIEW View
-INVARIANTS DesignInvariants Emit
+INVARIANTS DesignInvariants Emit Emit2
 CHECK_DEADLOCK FALSE
